@@ -39,8 +39,13 @@ Record fcfg := mkFcfg {
   c_discard : option (N * dmode);          (* DiscardSettings::Static { limit, mode } *)
   c_rate : option (cfg * option N);        (* RateLimitedRouter with a leaky bucket: config, initial *)
   c_n0 : N;                                (* num_initial_workers *)
-  c_hash : list (N * list N)               (* hash_with_max(key, n) for n = 1, 2, ... per job key: the
+  c_hash : list (N * list N);              (* hash_with_max(key, n) for n = 1, 2, ... per job key: the
                                               hash is data of the scenario (KeyPersistentRouting) *)
+  c_scripts : list N * list N              (* what the WorkerCapacityController returns on successive
+                                              Calculate ticks, and what the DynamicDiscardController
+                                              returns on successive DoPings (a non-empty second list
+                                              means the initial settings are DiscardSettings::Dynamic);
+                                              an exhausted script returns the current value *)
 }.
 
 (* what can be observed *)
@@ -83,8 +88,9 @@ Record fstate := mkF {
   f_stopped : bool;
   f_now : N;                 (* virtual clock, ns *)
   f_builds : list (N * N);   (* per slot: number of workers built so far *)
-  f_discard : option (N * dmode)   (* discard_settings now in force (UpdateSettings can change them);
+  f_discard : option (N * dmode);  (* discard_settings now in force (UpdateSettings can change them);
                                       the workers' copies are replaced together with it *)
+  f_scripts : list N * list N   (* what is left of the two controller scripts *)
 }.
 
 (* ---------- small helpers ---------- *)
@@ -321,23 +327,25 @@ Definition on_change (c : fcfg) (rs : rstate) (i : N) (available : bool) : rstat
 Inductive rresult := Handled | Backlog | Limited.
 
 Definition set_pool (s : fstate) (p : list worker) : fstate :=
-  mkF p (f_size s) (f_q s) (f_rs s) (f_bucket s) (f_drain s) (f_stopped s) (f_now s) (f_builds s) (f_discard s).
+  mkF p (f_size s) (f_q s) (f_rs s) (f_bucket s) (f_drain s) (f_stopped s) (f_now s) (f_builds s) (f_discard s) (f_scripts s).
 Definition set_rs (s : fstate) (r : rstate) : fstate :=
-  mkF (f_pool s) (f_size s) (f_q s) r (f_bucket s) (f_drain s) (f_stopped s) (f_now s) (f_builds s) (f_discard s).
+  mkF (f_pool s) (f_size s) (f_q s) r (f_bucket s) (f_drain s) (f_stopped s) (f_now s) (f_builds s) (f_discard s) (f_scripts s).
 Definition set_fq (s : fstate) (q : list job) : fstate :=
-  mkF (f_pool s) (f_size s) q (f_rs s) (f_bucket s) (f_drain s) (f_stopped s) (f_now s) (f_builds s) (f_discard s).
+  mkF (f_pool s) (f_size s) q (f_rs s) (f_bucket s) (f_drain s) (f_stopped s) (f_now s) (f_builds s) (f_discard s) (f_scripts s).
 Definition set_bucket (s : fstate) (b : option bucket) : fstate :=
-  mkF (f_pool s) (f_size s) (f_q s) (f_rs s) b (f_drain s) (f_stopped s) (f_now s) (f_builds s) (f_discard s).
+  mkF (f_pool s) (f_size s) (f_q s) (f_rs s) b (f_drain s) (f_stopped s) (f_now s) (f_builds s) (f_discard s) (f_scripts s).
 Definition set_size (s : fstate) (n : N) : fstate :=
-  mkF (f_pool s) n (f_q s) (f_rs s) (f_bucket s) (f_drain s) (f_stopped s) (f_now s) (f_builds s) (f_discard s).
+  mkF (f_pool s) n (f_q s) (f_rs s) (f_bucket s) (f_drain s) (f_stopped s) (f_now s) (f_builds s) (f_discard s) (f_scripts s).
 Definition set_dstate (s : fstate) (d : dstate) : fstate :=
-  mkF (f_pool s) (f_size s) (f_q s) (f_rs s) (f_bucket s) d (f_stopped s) (f_now s) (f_builds s) (f_discard s).
+  mkF (f_pool s) (f_size s) (f_q s) (f_rs s) (f_bucket s) d (f_stopped s) (f_now s) (f_builds s) (f_discard s) (f_scripts s).
 Definition set_now (s : fstate) (t : N) : fstate :=
-  mkF (f_pool s) (f_size s) (f_q s) (f_rs s) (f_bucket s) (f_drain s) (f_stopped s) t (f_builds s) (f_discard s).
+  mkF (f_pool s) (f_size s) (f_q s) (f_rs s) (f_bucket s) (f_drain s) (f_stopped s) t (f_builds s) (f_discard s) (f_scripts s).
 Definition set_builds (s : fstate) (b : list (N * N)) : fstate :=
-  mkF (f_pool s) (f_size s) (f_q s) (f_rs s) (f_bucket s) (f_drain s) (f_stopped s) (f_now s) b (f_discard s).
+  mkF (f_pool s) (f_size s) (f_q s) (f_rs s) (f_bucket s) (f_drain s) (f_stopped s) (f_now s) b (f_discard s) (f_scripts s).
 Definition set_discard (s : fstate) (d : option (N * dmode)) : fstate :=
-  mkF (f_pool s) (f_size s) (f_q s) (f_rs s) (f_bucket s) (f_drain s) (f_stopped s) (f_now s) (f_builds s) d.
+  mkF (f_pool s) (f_size s) (f_q s) (f_rs s) (f_bucket s) (f_drain s) (f_stopped s) (f_now s) (f_builds s) d (f_scripts s).
+Definition set_scripts (s : fstate) (x : list N * list N) : fstate :=
+  mkF (f_pool s) (f_size s) (f_q s) (f_rs s) (f_bucket s) (f_drain s) (f_stopped s) (f_now s) (f_builds s) (f_discard s) x.
 
 (* the inner router's route_message *)
 Definition route_inner (c : fcfg) (s : fstate) (j : job) (hint : option N) : fstate * rresult * list ev :=
@@ -566,7 +574,7 @@ Definition resize (c : fcfg) (s : fstate) (requested : N) : fstate * list ev :=
 Definition all_available (p : list worker) : bool := forallb w_available p.
 
 Definition stop_factory (s : fstate) : fstate * list ev :=
-  (mkF [] (f_size s) [] (f_rs s) (f_bucket s) (f_drain s) true (f_now s) (f_builds s) (f_discard s),
+  (mkF [] (f_size s) [] (f_rs s) (f_bucket s) (f_drain s) true (f_now s) (f_builds s) (f_discard s) (f_scripts s),
    map (fun j => EDiscard (jid j) Shutdown) (f_q s ++ flat_map w_q (f_pool s))
    ++ [EHook HStopped; EStopped]).
 
@@ -615,7 +623,12 @@ Inductive fop :=
 | FQuery                (* GetQueueDepth, GetAvailableCapacity, GetNumActiveWorkers + live workers *)
 | FStopW (w : N)        (* user code stops the idle actor of slot w; its post_stop is slow *)
 | FOpenStop (w : N)     (* that actor finishes stopping: the factory gets the supervision event *)
-| FUpdate (d : option (N * dmode)).   (* UpdateSettings { discard_settings: None | Static/Dynamic { limit, mode } } *)
+| FUpdate (d : option (N * dmode))    (* UpdateSettings { discard_settings: None | Static/Dynamic { limit, mode } } *)
+| FNudge                (* any other message that changes nothing the model carries (UpdateSettings of the
+                           lifecycle hooks, ...): only the is_drained check that follows every message *)
+| FTick.                (* the virtual clock jumps over the next DoPings deadline (10 s): the factory
+                           processes one Calculate (capacity controller -> resize_pool) and one DoPings
+                           (dynamic discard controller -> new limit; workers are pinged) *)
 
 (* a message handled by the running factory, followed by the is_drained check *)
 Definition with_after (r : fstate * list ev) : fstate * list ev :=
@@ -653,13 +666,41 @@ Fixpoint finish_list (c : fcfg) (s : fstate) (l : list (N * N)) : fstate * list 
                     let (s2, e') := finish_list c s1 r in (s2, e ++ e')
   end.
 
+Definition tick_ns : N := 10005000000.
+
+(* FactoryMessage::Calculate: the capacity controller may ask for another pool size *)
+Definition tick_calc (c : fcfg) (s : fstate) : fstate * list ev :=
+  match fst (f_scripts s) with
+  | n :: rest =>
+    let s' := set_scripts s (rest, snd (f_scripts s)) in
+    if n =? f_size s' then (s', []) else resize c s' n
+  | [] => (s, [])
+  end.
+
+(* FactoryMessage::DoPings: a Dynamic limit is recomputed (mode kept); the workers are pinged, and
+   their pongs refresh their copy of the limit *)
+Definition tick_ping (s : fstate) : fstate * list ev :=
+  match snd (f_scripts s), f_discard s with
+  | l :: rest, Some (_, m) => (set_discard (set_scripts s (fst (f_scripts s), rest)) (Some (l, m)), [])
+  | _, _ => (s, [])
+  end.
+
 (* one label, under the discard settings `c_discard c` *)
 Definition step0 (c : fcfg) (s : fstate) (o : fop) : fstate * list ev :=
   match o with
+  | FNudge => if f_stopped s then (s, []) else with_after (s, [])
+  | FTick =>
+    let s0 := set_now s (f_now s + tick_ns) in
+    if f_stopped s then (s0, [])
+    else
+      let (s1, e1) := with_after (tick_calc c s0) in
+      if f_stopped s1 then (s1, e1)
+      else let (s2, e2) := with_after (tick_ping s1) in (s2, e1 ++ e2)
   | FUpdate d =>
     (* update_settings: the factory's settings and every existing worker's copy are replaced;
        nothing is shed at this moment (no retroactive shedding) *)
-    if f_stopped s then (s, []) else with_after (set_discard s d, [])
+    if f_stopped s then (s, [])
+    else with_after (set_discard (set_scripts s (fst (f_scripts s), [])) d, [])
   | FAdv dt => (set_now s (f_now s + dt), [])
   | FSettle => (set_now s (f_now s + settle_ns), [])
   | FDispatch j => if f_stopped s then (s, [EDropped (jid j)]) else with_after (dispatch c s j)
@@ -703,7 +744,7 @@ Definition step0 (c : fcfg) (s : fstate) (o : fop) : fstate * list ev :=
    field: update_settings replaces all of them together with the factory's, and new workers take
    the factory's current settings, so they always agree with f_discard. *)
 Definition with_discard (c : fcfg) (d : option (N * dmode)) : fcfg :=
-  mkFcfg (c_router c) (c_queue c) d (c_rate c) (c_n0 c) (c_hash c).
+  mkFcfg (c_router c) (c_queue c) d (c_rate c) (c_n0 c) (c_hash c) (c_scripts c).
 Definition cfg_now (c : fcfg) (s : fstate) : fcfg := with_discard c (f_discard s).
 
 Definition step (c : fcfg) (s : fstate) (o : fop) : fstate * list ev := step0 (cfg_now c s) s o.
@@ -712,7 +753,7 @@ Definition step (c : fcfg) (s : fstate) (o : fop) : fstate * list ev := step0 (c
 Definition init (c : fcfg) (t0 : N) : fstate * list ev :=
   let s0 := mkF [] 0 [] (mkR [] [] 0)
                 (match c_rate c with Some (rc, i) => Some (new rc i t0) | None => None end)
-                NotDraining false t0 [] (c_discard c) in
+                NotDraining false t0 [] (c_discard c) (c_scripts c) in
   (set_size (grow c s0 0 (N.to_nat (c_n0 c))) (c_n0 c), [EHook HStarted]).
 
 Fixpoint run_from (c : fcfg) (s : fstate) (ops : list fop) : list (list ev) :=
@@ -823,12 +864,20 @@ Definition all_terminal (jobs : list job) (pre : list ev) : bool :=
 
 Definition ck_discard_once (ws : list window) : bool := nodup_b (discard_ids (evs_of ws)).
 
-(* the settings an UpdateSettings label of this window installs (the last one, if several) *)
-Fixpoint last_update (ops : list fop) (acc : option (option (N * dmode))) : option (option (N * dmode)) :=
+(* the settings that the labels of one window install, if any: an UpdateSettings label (which also
+   replaces a scripted Dynamic controller), or a tick whose DoPings recomputes a Dynamic limit
+   from the script; returns the last change and what is left of the script *)
+Fixpoint win_update (cur : option (N * dmode)) (dyn : list N) (ops : list fop)
+                    (acc : option (option (N * dmode))) : option (option (N * dmode)) * list N :=
   match ops with
-  | [] => acc
-  | FUpdate d :: r => last_update r (Some d)
-  | _ :: r => last_update r acc
+  | [] => (acc, dyn)
+  | FUpdate d :: r => win_update d [] r (Some d)
+  | FTick :: r =>
+    match dyn, cur with
+    | l :: rest, Some (_, m) => win_update (Some (l, m)) rest r (Some (Some (l, m)))
+    | _, _ => win_update cur dyn r acc
+    end
+  | _ :: r => win_update cur dyn r acc
   end.
 
 (* Runtime updates: `cur` = settings in force, `base` = everything observed up to the window of
@@ -837,16 +886,16 @@ Fixpoint last_update (ops : list fop) (acc : option (option (N * dmode))) : opti
    AFTER the update at most L are ever waiting in one queue (Newest: each was accepted into a
    queue shorter than L; Oldest: the queue is cut to L at every arrival).  Windows that contain
    an update are not judged. *)
-Fixpoint qb_scan (c : fcfg) (cur : option (N * dmode)) (base : list ev) (jobs : list job)
+Fixpoint qb_scan (c : fcfg) (cur : option (N * dmode)) (dyn : list N) (base : list ev) (jobs : list job)
                  (slots : list N) (pre : list ev) (ws : list window) : bool :=
   match ws with
   | [] => true
   | w :: r =>
     let pre' := pre ++ snd w in
     let post := evs_of r in
-    match last_update (fst w) None with
-    | Some d => qb_scan c d pre' jobs slots pre' r
-    | None =>
+    match win_update cur dyn (fst w) None with
+    | (Some d, dyn') => qb_scan c d dyn' pre' jobs slots pre' r
+    | (None, _) =>
       (match cur with
        | None => true
        | Some (L, _) =>
@@ -858,7 +907,7 @@ Fixpoint qb_scan (c : fcfg) (cur : option (N * dmode)) (base : list ev) (jobs : 
            forallb (fun x => len (filter (fun j => existsb (is_start_on (jid j) x) post) waiting) <=? L) slots
          else true
        end)
-      && qb_scan c cur base jobs slots pre' r
+      && qb_scan c cur dyn base jobs slots pre' r
     end
   end.
 
@@ -867,26 +916,26 @@ Fixpoint qb_scan (c : fcfg) (cur : option (N * dmode)) (base : list ev) (jobs : 
    not apply; from outside the two kinds of waiting jobs cannot be told apart, so for this router
    the clause uses what the factory itself reports: GetQueueDepth <= L whenever every job is
    discardable (default queue), as long as no runtime update has happened *)
-Fixpoint sticky_scan (c : fcfg) (cur : option (N * dmode)) (ws : list window) : bool :=
+Fixpoint sticky_scan (c : fcfg) (cur : option (N * dmode)) (dyn : list N) (ws : list window) : bool :=
   match ws with
   | [] => true
   | w :: r =>
-    match last_update (fst w) None with
-    | Some _ => true
-    | None =>
+    match win_update cur dyn (fst w) None with
+    | (Some _, _) => true
+    | (None, _) =>
       forallb (fun e => match e, cur with
                         | EQuery (Some d) _ _ _, Some (L, _) =>
                           match c_queue c with QDefault => d <=? L | QPrio => true end
                         | _, _ => true
                         end) (snd w)
-      && sticky_scan c cur r
+      && sticky_scan c cur dyn r
     end
   end.
 
 Definition ck_queue_bound (c : fcfg) (ws : list window) : bool :=
   match c_router c with
-  | RSticky => sticky_scan c (c_discard c) ws
-  | _ => qb_scan c (c_discard c) [] (jobs_of (ops_of ws)) (dedup (start_slots (evs_of ws))) [] ws
+  | RSticky => sticky_scan c (c_discard c) (snd (c_scripts c)) ws
+  | _ => qb_scan c (c_discard c) (snd (c_scripts c)) [] (jobs_of (ops_of ws)) (dedup (start_slots (evs_of ws))) [] ws
   end.
 
 Fixpoint pos_of (id : N) (jobs : list job) : N :=
@@ -901,16 +950,16 @@ Definition shed_before (c : fcfg) (jobs : list job) (x j : job) : bool :=
 
 (* which job is shed, judged window by window under the mode in force (windows containing an
    update are not judged) *)
-Fixpoint si_scan (c : fcfg) (cur : option (N * dmode)) (all : list ev) (jobs : list job)
+Fixpoint si_scan (c : fcfg) (cur : option (N * dmode)) (dyn : list N) (all : list ev) (jobs : list job)
                  (pre : list ev) (ws : list window) : bool :=
   match ws with
   | [] => true
   | w :: r =>
     let pre' := pre ++ snd w in
     let post := evs_of r in
-    match last_update (fst w) None with
-    | Some d => si_scan c d all jobs pre' r
-    | None =>
+    match win_update cur dyn (fst w) None with
+    | (Some d, dyn') => si_scan c d dyn' all jobs pre' r
+    | (None, _) =>
       (match cur with
        | None => true
        | Some (_, Newest) =>
@@ -934,12 +983,12 @@ Fixpoint si_scan (c : fcfg) (cur : option (N * dmode)) (all : list ev) (jobs : l
              | _ => true
              end)
        end)
-      && si_scan c cur all jobs pre' r
+      && si_scan c cur dyn all jobs pre' r
     end
   end.
 
 Definition ck_shed_identity (c : fcfg) (ws : list window) : bool :=
-  si_scan c (c_discard c) (evs_of ws) (jobs_of (ops_of ws)) [] ws.
+  si_scan c (c_discard c) (snd (c_scripts c)) (evs_of ws) (jobs_of (ops_of ws)) [] ws.
 
 Definition ck_reject_reported (c : fcfg) (ws : list window) : bool :=
   let evs := evs_of ws in
@@ -962,6 +1011,7 @@ Fixpoint time_after (t : N) (ops : list fop) : N :=
   | [] => t
   | FAdv dt :: r => time_after (t + dt) r
   | FSettle :: r => time_after (t + settle_ns) r
+  | FTick :: r => time_after (t + tick_ns) r
   | _ :: r => time_after t r
   end.
 
@@ -971,6 +1021,7 @@ Fixpoint time_before_settle (t : N) (ops : list fop) : N :=
   | [] => t
   | FAdv dt :: r => time_before_settle (t + dt) r
   | FSettle :: r => time_before_settle t r
+  | FTick :: r => time_before_settle (t + tick_ns) r
   | _ :: r => time_before_settle t r
   end.
 
@@ -1063,12 +1114,34 @@ Fixpoint target_after (n : N) (ops : list fop) : N :=
   | _ :: r => target_after n r
   end.
 
-Fixpoint rc_scan (jobs : list job) (n : N) (pre : list ev) (ws : list window) : bool :=
+(* the same with the capacity controller's script: every tick consumes one entry (0 = no change) *)
+Definition ctl_next (n : N) (scr : list N) : N * list N :=
+  match scr with
+  | k :: r => (if k =? 0 then n else N.min pool_max k, r)
+  | [] => (n, [])
+  end.
+Fixpoint target_until_query_s (n : N) (scr : list N) (ops : list fop) : N :=
+  match ops with
+  | [] => n
+  | FQuery :: _ => n
+  | FResize k :: r => target_until_query_s (if k =? 0 then n else N.min pool_max k) scr r
+  | FTick :: r => let (n', scr') := ctl_next n scr in target_until_query_s n' scr' r
+  | _ :: r => target_until_query_s n scr r
+  end.
+Fixpoint target_after_s (n : N) (scr : list N) (ops : list fop) : N * list N :=
+  match ops with
+  | [] => (n, scr)
+  | FResize k :: r => target_after_s (if k =? 0 then n else N.min pool_max k) scr r
+  | FTick :: r => let (n', scr') := ctl_next n scr in target_after_s n' scr' r
+  | _ :: r => target_after_s n scr r
+  end.
+
+Fixpoint rc_scan (jobs : list job) (n : N) (scr : list N) (pre : list ev) (ws : list window) : bool :=
   match ws with
   | [] => true
   | w :: r =>
     let pre' := pre ++ snd w in
-    let n1 := target_until_query n (fst w) in
+    let n1 := target_until_query_s n scr (fst w) in
     (if Nat.eqb (length (filter (fun o => match o with FQuery => true | _ => false end) (fst w))) 1
         && all_terminal jobs pre && all_terminal jobs pre'
      then forallb (fun e => match e with
@@ -1076,11 +1149,11 @@ Fixpoint rc_scan (jobs : list job) (n : N) (pre : list ev) (ws : list window) : 
                             | _ => true
                             end) (snd w)
      else true)
-    && rc_scan jobs (target_after n (fst w)) pre' r
+    && (let (n', scr') := target_after_s n scr (fst w) in rc_scan jobs n' scr' pre' r)
   end.
 
 Definition ck_resize (c : fcfg) (ws : list window) : bool :=
-  rc_scan (jobs_of (ops_of ws)) (c_n0 c) [] ws.
+  rc_scan (jobs_of (ops_of ws)) (c_n0 c) (fst (c_scripts c)) [] ws.
 
 (* a job that was accepted is never thrown away as Shutdown: after DrainRequests every previously
    accepted job finishes (the scenarios never stop the factory in any other way) *)
